@@ -5,6 +5,7 @@ import (
 	"fmt"
 	"reflect"
 	"sort"
+	"strings"
 	"testing"
 
 	"github.com/alecthomas/participle/v2"
@@ -449,6 +450,20 @@ func checkC11(c *gramCase, b *gram.Built, r *vstat.Run) outcome {
 	if len(pm) > 0 {
 		return violationf("positions", "node positions / token lists differ from the text the node consumed:\n%s%s", fmtMis(pm), describeCase(c))
 	}
+	// the token lists and positions of an AST the caller still holds stay what they were while the parser goes on
+	// parsing other documents of about the same size
+	before := gram.Plain(reflect.ValueOf(p.ast.V))
+	words := strings.Fields(c.Input)
+	for i, j := 0, len(words)-1; i < j; i, j = i+1, j-1 {
+		words[i], words[j] = words[j], words[i]
+	}
+	_ = guard(func() {
+		_, _ = b.P.ParseString("g", strings.Join(words, " "))
+		_, _ = b.P.ParseString("h", "x "+c.Input)
+	})
+	if after := gram.Plain(reflect.ValueOf(p.ast.V)); after != before {
+		return violationf("later-parse", "the AST changed after the same parser parsed two other inputs:\n before %s\n after  %s\n%s", before, after, describeCase(c))
+	}
 	return outcome{}
 }
 
@@ -584,7 +599,7 @@ func checkC13(c *gramCase, ps *c13Parsers, r *vstat.Run) outcome {
 
 func TestC13(t *testing.T) {
 	runProp(t, "C13", c13Rule, func(t *rapid.T, r *vstat.Run) {
-		o := gram.GenOpts{MaxProds: 4, MaxDepth: 4, TrapPercent: 30, NoLookNeg: true, PosStyles: true, Profiles: true, Parseables: true}
+		o := gram.GenOpts{MaxProds: 4, MaxDepth: 4, TrapPercent: 30, NoLookNeg: true, PosStyles: true, Profiles: true, Parseables: true, NameElided: rapid.IntRange(0, 4).Draw(t, "named") == 0}
 		g := gram.GenGrammar(t, o)
 		ps, msg := buildLadder(g)
 		if msg != "" {
